@@ -907,6 +907,50 @@ def special_targets(chk, r, run, jobs, drv_reqs, work, ds, d, acommon, base, hdr
                 env=hash_env(r))
 
 
+def long_record_jobs(chk, r, run, jobs, work, ds, d, raw_hdr, tag):
+    """call-exact --report GP GL over every allele combination of each locus for 30 single-sample pools: record lines of
+    10^5 .. 10^6 bytes.  The single-core run in this process is the reference; the --cores 4 runs write into a pipe."""
+    import itertools
+    lines = []
+    for l in ds.loci:
+        if not l.snv_positions:
+            continue
+        ref = ds.contigs[l.contig][l.start:l.stop]
+        combos = list(itertools.product(*[range(len(a)) for a in l.snv_alleles]))[:12]
+        alts = []
+        for v in combos:
+            h = list(ref)
+            for p_, a_, i_ in zip(l.snv_positions, l.snv_alleles, v):
+                h[p_ - l.start] = a_[i_]
+            h = "".join(h)
+            if h != ref and h not in alts:
+                alts.append(h)
+        if alts:
+            lines.append(f"{l.contig}\t{l.start + 1}\t{lkey(l).split(':')[-1]}\t{ref}\t{','.join(alts)}\t.\tPASS\t.")
+    if len(lines) < 3:
+        chk.count("cli:long-records-skipped")
+        return
+    hdr = [x for x in raw_hdr if x.startswith("##fileformat") or x.startswith("##contig")] + ["#CHROM\tPOS\tID\tREF\tALT\tQUAL\tFILTER\tINFO"]
+    hv = synth.bgzip_tabix_vcf(synth.write_text(os.path.join(work, f"ds{d}.haps.long.vcf"), "\n".join(hdr + lines) + "\n"))
+    n_pools = 30
+    s = ds.samples
+    pfile = synth.write_text(os.path.join(work, f"ds{d}.pools30.txt"), "".join(f"{s[i % len(s)]}\tP{i:02d}\n" for i in range(n_pools)))
+    ppl = synth.write_text(os.path.join(work, f"ds{d}.pools30.ploidy.txt"),
+                           "".join(f"P{i:02d}\t{ds.ploidy[s[i % len(s)]]}\n" for i in range(n_pools)))
+    argv = set_arg(ds.call_argv("call-exact", hv), "--ploidy", ppl) + ["--sample-pool", pfile, "--report", "GP", "GL"]
+    h0, r0 = run(argv, "call-exact long records base", base=True)
+    base = by_id(r0)
+    ids = [rid(x) for x in r0]
+    sizes = sorted(len(x) for x in r0)
+    chk.count("cli:long-records"); chk.count("cli:long-record-bytes>=%d" % (10 ** (len(str(sizes[-1])) - 1)))
+    chk.case({**tag, "what": "long records", "line_bytes": sizes}, sizes[-1] > 65536)
+    for k in range(3):
+        jobs.submit(f"call-exact long-records#{k} cores=4 stdout=pipe", argv + ["--cores", "4"],
+                    {"base": base, "hdr": h0, "ids": ids, "cores": 4, "tag": {**tag, "prog": "call-exact", "stdout": "pipe",
+                                                                             "longest_line_bytes": sizes[-1]},
+                     "n_samples": n_pools}, env=hash_env(r), mode="pipe")
+
+
 def option_runs(chk, r, run, jobs, work, ds, d, tier, common, hv, raw_hdr, recs0, ped, tag):
     """sampler / input options that are otherwise left at their defaults: each configuration is run single-core in this
     process, again after unrelated work with a permuted subset on several cores, and in fresh processes"""
@@ -1262,6 +1306,10 @@ def check_cli(chk, drv, r, tier, work, jobs):
                     jobs.submit(f"{prog} cores={cores}", argv0 + ["--cores", str(cores)],
                                 {"base": cbase, "hdr": ch0, "ids": ids, "cores": cores,
                                  "tag": {**tag, "prog": prog}, "n_samples": n_cols}, env=hash_env(r))
+
+        # ---------------- records far longer than a pipe buffer, several cores, stdout a pipe
+        if d == 0 and tier != "warm":
+            long_record_jobs(chk, r, run, jobs, work, ds, d, raw_hdr, tag)
 
         # ---------------- sampler / input options
         if d == 0 or tier == "thorough":
